@@ -2,6 +2,7 @@ import NixModel.Pure.Poly
 import NixModel.Lemmas.C15Horner
 import NixModel.Lemmas.C15Read
 import NixModel.Lemmas.C15Hist
+import NixModel.Lemmas.C15Select
 
 /-!
 # C15 — calibration is applied on every read and never touches the stored values
@@ -156,5 +157,79 @@ theorem C15_clear_restores (a : Arr) (ops : List Op) (h : ∀ op ∈ ops, isWrit
     simp [exec, run, step, setCoeffs, setOrigin]
   rw [hex, C15_no_calibration_identity _ ix (Or.inl rfl) (Or.inl rfl)]
   simp only [rawRead, hraw, hshape, hdtype]
+
+
+/-- well-formed array: as many stored elements as the shape says, rank ≥ 1 (what nixio creates) -/
+def WF (a : Arr) : Prop := a.raw.length = a.shape.prod ∧ a.shape ≠ []
+
+/-- **whole read.** `da[:]` / `np.array(da)` of a well-formed array returns every stored element, calibrated,
+in storage order and with the stored shape -/
+theorem C15_whole (a : Arr) (h : WF a) :
+    readData a none = .ok ⟨outDtype a, a.shape, calibAll a⟩ := by
+  obtain ⟨hlen, hne⟩ := h
+  rw [C15_commutes, select_whole a.shape hne]
+  have hl : (calibAll a).length = a.shape.prod := by simp [calibAll, hlen]
+  have hg := gather_range (calibAll a)
+  rw [hl] at hg
+  have hfs : fixShape a.shape = a.shape := by
+    cases hs : a.shape with
+    | nil => exact absurd hs hne
+    | cons d ds => simp [fixShape]
+  simp only [hg, hfs]
+
+/-- **slicing and calibration commute.** For a well-formed array, reading through any index expression is
+the same as taking the whole calibrated read and selecting from it with the same selection (same values,
+same element type, same refusals). -/
+theorem C15_commutes_whole (a : Arr) (h : WF a) (ix : Index) :
+    ∃ w, readData a none = .ok w ∧
+      readData a ix =
+        match select a.shape ix with
+        | .error e => .error e
+        | .ok (shape, pos) =>
+          match gather w.vals pos with
+          | .error e => .error e
+          | .ok vals => .ok ⟨w.dtype, fixShape shape, vals⟩ :=
+  ⟨_, C15_whole a h, C15_commutes a ix⟩
+
+/-- the formula for view reads (`get_slice`, `tagged_data`, `feature_data`): a successful read of a valid
+view over a calibrated array returns the polynomial of raw elements of the parent array -/
+theorem C15_view_formula (a : Arr) (v : View) (uix : Index) (r : Result) (hv : v.valid = true)
+    (hcal : calibrated a = true) (h : readView a v uix = .ok r) :
+    ∃ ix shape pos xs, select a.shape ix = .ok (shape, pos) ∧ gather a.raw pos = .ok xs ∧
+      r.dtype = .float64 ∧ r.shape = fixShape shape ∧
+      r.vals = xs.map (fun x => polySum (effCoeffs a) (x - originVal a)) := by
+  rcases C15_view_reads_through a v uix hv with ⟨ix, hix⟩ | ⟨e, he⟩
+  · rw [hix] at h
+    obtain ⟨shape, pos, xs, h1, h2, h3, h4, h5⟩ := C15_formula a ix r hcal h
+    exact ⟨ix, shape, pos, xs, h1, h2, h3, h4, h5⟩
+  · rw [he] at h; cases h
+
+/-- an invalid view reads as an empty array, whatever the calibration -/
+theorem C15_invalid_view_empty (a : Arr) (v : View) (uix : Index) (hv : v.valid = false) :
+    readView a v uix = .ok ⟨.float64, [0], []⟩ := by
+  simp [readView, hv]
+
+/-! ## Non-vacuity: concrete arrays meeting the hypotheses, with the values the theorems speak about -/
+
+/-- a 2×3 `int16` array with coefficients `(1, 2)` and origin `1/2` -/
+def exArr : Arr := ⟨.int16, [2, 3], [0, 1, 2, 3, 4, 5], some [1, 2], some (1 / 2)⟩
+
+example : WF exArr := ⟨by decide, by decide⟩
+example : calibrated exArr = true := by decide +kernel
+example : readData exArr (some [.int 1, .slice none none (some 2)]) = .ok ⟨.float64, [2], [6, 10]⟩ := by
+  decide +kernel
+example : readData exArr (some [.int (-1), .int 0]) = .ok ⟨.float64, [1], [6]⟩ := by decide +kernel
+example : readView exArr (mkView exArr.shape (some [(0, 2), (1, 3)])) (some [.int 1, .int (-1)])
+    = .ok ⟨.float64, [1], [10]⟩ := by decide +kernel
+example : (mkView exArr.shape (some [(0, 2), (1, 3)])).valid = true := by decide +kernel
+example : (mkView exArr.shape (some [(0, 2), (1, 4)])).valid = false := by decide +kernel
+/-- a history of accepted and refused calibration operations and reads (no writes) -/
+def exHist : List Op :=
+  [.setCoeffs (.seq [0, 0, 1]), .read none, .setOrigin .notNumber, .setCoeffs (.scalar 5),
+   .setOrigin (.num 3), .readView (some [(0, 1), (0, 3)]) none, .setCoeffs .none, .reopen]
+example : ∀ op ∈ exHist, isWrite op = false := by decide
+example : (exec exArr exHist).origin = some 3 ∧ (exec exArr exHist).coeffs = none := by decide +kernel
+example : readData { exArr with coeffs := none, origin := some 0 } (some [.int 1])
+    = .ok ⟨.int16, [3], [3, 4, 5]⟩ := by decide +kernel
 
 end Nix.C15
